@@ -399,7 +399,7 @@ def check_ts_sync(rep, repo, tier):
              'ts_sync 2 and 3, four streams (clean, leading junk, loss of sync, a sync-octet emulation followed by exactly one more at +size), each fed '
              'uncut and cut into two buffers at every position (and into 1-, 2-, 3-octet slices; thorough tier: into three buffers at every pair of positions, and 5-, 7-octet slices), then flushed: every unit output has the packet size and '
              'starts with the sync octet; the units are disjoint, in-order pieces of the input (by token identity); and the sequence of units is the same '
-             'for every cutting as for the uncut stream')
+             'for every cutting as for the uncut stream; a stream made of whole packets only (after optional leading junk) comes out entirely once flushed')
     P = 4
     fin = u.funcs['upipe_ts_sync_input']
     ffl = u.funcs['upipe_ts_sync_flush']
@@ -450,6 +450,12 @@ def check_ts_sync(rep, repo, tier):
                             what = 'a unit is output that is not a piece of the input following the previous unit'
                             break
                         p0 = idx + P
+                    if not what and sname in ('clean', 'lead-junk'):
+                        # nothing but whole packets after the first sync octet: every one of them comes out, the last ones at the flush
+                        npk = sum(1 for i in range(0, N) if stream[i] == 0x47)
+                        if len(outs) != npk:
+                            what = 'a stream of %d whole packets gives %d units once flushed (sync count %d): packets validated and still pending are lost' % (
+                                npk, len(outs), ts_sync)
                     if not what:
                         lu, lb = m.leaked()
                         if lu or lb:
@@ -569,6 +575,23 @@ def run(tier='quick', repo=None):
     okw = set(writers) <= {'_upipe_chunk_stream_set_mtu', 'upipe_chunk_stream_alloc'}
     rep.add('R-config', 'upipe_chunk_stream', HOLDS if okw else VIOLATED, cs.name, writers={k: sorted(v) for k, v in writers.items()},
             **({} if okw else {'what': 'size/align/mtu written outside set_mtu/alloc: %s' % sorted(writers)}))
+    # and set_mtu validates before it writes: no refusal is reachable after a store (a refused call leaves size 0 / the
+    # refused values in force otherwise, and the domain of R-progress - size = (mtu / align) * align >= 1 - no longer holds)
+    fm = cs.funcs['_upipe_chunk_stream_set_mtu']
+    evm = pr.Events(fm)
+
+    def cfg_store(x):
+        if is_assign(x):
+            l = strip(x['lhs'])
+            return isinstance(l, dict) and l.get('k') == 'mem' and l.get('rec') == 'upipe_chunk_stream' and l.get('f') in ('size', 'align', 'mtu')
+        return False
+
+    def refusal(x):
+        return x.get('k') == 'return' and isinstance(x.get('e'), dict) and (enum_name(x['e']) or '').startswith('UBASE_ERR_') and enum_name(x['e']) != 'UBASE_ERR_NONE'
+    late = pr.never_after(evm, cfg_store, refusal)
+    rep.add('R-config', '_upipe_chunk_stream_set_mtu:validate-before-store', VIOLATED if late else HOLDS, fm.loc,
+            **({'what': 'a refusal (line %s) is reachable after size / align / mtu were written (line %s): the refused values stay in force' % (
+                late[0][1][2].get('l'), late[0][0][2].get('l'))} if late else {}))
     stats = {'runs': 0}
     seen = {}
 
